@@ -245,10 +245,27 @@ pub fn size_bytes(v: u8, n: u8) -> Result<Vec<u8>, String> {
     b.build().map_err(e2s)?.build().map_err(e2s)
 }
 
+/// A V1 manifest with the widest esize field the format allows (8 bytes) and 4-byte keys: the
+/// records are 12 bytes apart, which is one of the record strides of the coordinated-deviation
+/// class (the same field of two or three consecutive records set high — a sum over all records
+/// only goes wrong when more than one record lies).
+pub fn size_wide_bytes() -> Result<Vec<u8>, String> {
+    use cascette_formats::install::TagType;
+    use cascette_formats::size::SizeManifestBuilder;
+    let mut b = SizeManifestBuilder::new().version(1).ekey_size(4).esize_bytes(8);
+    b = b.add_tag("Windows".to_string(), TagType::Platform);
+    for i in 0..3u8 {
+        b = b.add_entry(key(0x30, i)[..4].to_vec(), 0x0100_0000_0000 + u64::from(i) * 0x0101);
+    }
+    b = b.tag_file(0, 0).tag_file(0, 2);
+    b.build().map_err(e2s)?.build().map_err(e2s)
+}
+
 fn size(out: &mut Vec<(String, Vec<u8>)>) {
     push(out, "size-v1-3entries-2tags", size_bytes(1, 3));
     push(out, "size-v2-3entries-2tags", size_bytes(2, 3));
     push(out, "size-v2-9entries-2tags", size_bytes(2, 9));
+    push(out, "size-v1-8byte-esizes-3entries-1tag", size_wide_bytes());
 }
 
 // ---------------------------------------------------------------- TVFS
